@@ -45,7 +45,7 @@ func VerifC10Seq() {
 	iv := verifIntervalOf(g)
 	rt.Assert(iv >= 1 && iv <= int64(1000000*uint64(map[bool]uint32{true: 1000, false: p.ms}[p.ms == 0])), "the pacing interval is positive and at most the statistic interval")
 	ivNs := float64(1000000 * uint64(map[bool]uint32{true: 1000, false: p.ms}[p.ms == 0]))
-	rt.Assert(float64(iv) >= float64(p.b)/p.thr*ivNs-1 && float64(iv) <= float64(p.b)/p.thr*ivNs+1, "the pacing interval is batch/threshold of the statistic interval (to the nanosecond)")
+	rt.Assert(float64(iv) >= float64(p.b)/p.thr*ivNs && float64(iv) <= float64(p.b)/p.thr*ivNs+1, "the pacing interval is at least batch/threshold of the statistic interval, and less than a nanosecond more")
 	maxq := int64(rt.U64n("maxq", 40))
 	last := int64(rt.U64n("last", 60))
 	c := NewThrottlingChecker(nil, 0, p.ms)
